@@ -35,6 +35,36 @@ TEXT = {
         "note": NOTE_COMMON + " The i64 overflow / u128 underflow (F7) was repaired by a fix: commit; C17_old_* record what was wrong and that the repair agrees with the old code on 2 ≤ m < 2^63.",
         "technique": "Lean 4 arithmetic theorems + exhaustive-delta differential execution",
     },
+    "C02": {
+        "level": "C02_exact: after an accepted batch, for every coin id, the coin set is exactly (previous − every input) + every created output (declared value/covenant/additional data, creating height, NewCustom ↦ Custom(txhash), destroyed outputs omitted) + faucet markers — proved for all states and batches, including batches whose members spend each other in any order; C02_no_double_spend, C02_inputs_exist, C02_each_valid, C02_repeat_rejected, C02_missing_rejected, C02_reject_noop. The coin set after every generated batch is compared with the model and with an independent Python map-based reference; a harness fact checks that a rejected batch leaves the real state (dump and sealed header) untouched.",
+        "design_ref": "DESIGN.md §4 C02",
+        "note": NOTE_COMMON + " Before the fix: commit 076ec87 the exact statement was false (F1).",
+        "technique": "Lean 4 refinement theorem (coin map = declarative spec) + differential execution + reference-map oracle",
+    },
+    "C04": {
+        "level": "C04_gate: in an accepted batch every input of every transaction has a covenant in the transaction whose hash is the coin's, that decodes, and that evaluates to a true value in that input's own environment (coin id, coin data and height, spender index, last header); C04_missing/undecodable/false force rejection; C04_env fixes the eleven heap slots; C04_std_new/legacy: the standard covenants approve iff the signature slot holds a valid Ed25519 signature of the transaction hash (symbolic execution over an arbitrary transaction). Accept/reject of every generated batch is compared with the model (which runs the covenants itself); a harness fact re-evaluates every input's covenant independently with Covenant::execute.",
+        "design_ref": "DESIGN.md §4 C04",
+        "note": NOTE_COMMON + " Before the fix: commit 13716fe the gate was false for later inputs sharing a covenant hash (F8).",
+        "technique": "Lean 4 theorems incl. symbolic execution of std covenants + differential execution + independent covenant evaluation",
+    },
+    "C05": {
+        "level": "C05_weight / C05_min_fee (weight and ⌊weight·multiplier/65536⌋ with the saturations the code applies), C05_threshold and C05_underpaying_rejected, C05_split (fee pool and tips after a batch, exactly), C05_split_exact, C05_reward (one coin worth fee_pool/65536 + tips; accumulators drop by exactly that; nothing else changes), C05_seal_structure (no action ⇒ no reward step). Fee pool, tips and the reward coin of every generated batch/seal are compared with the model; a Python oracle checks fee conservation and the reward equation on the real dumps.",
+        "design_ref": "DESIGN.md §4 C05",
+        "note": NOTE_COMMON + " Known finding F19: the covenant-weight sum in melstructs overflows for two saturated covenants.",
+        "technique": "Lean 4 arithmetic/fold theorems + differential execution + fee-equation oracle",
+    },
+    "C13": {
+        "level": "C13_register_iff (a stake is registered exactly under the stated conditions), C13_malformed, C13_locked / C13_locked_error (no output of a registered or being-registered stake can be spent; CoinLocked), C13_unlock (dropped exactly at the first block of the epoch after the end field), C13_seal_keeps_stakes, C13_votes / C13_total_votes / C13_total_is_sum_of_keys, C13_legacy_window (known deviation K2). The stake set after every batch and next_unsealed is compared with the model and recomputed by a Python oracle from the decoded stake documents; states are fabricated at epoch boundaries.",
+        "design_ref": "DESIGN.md §4 C13",
+        "note": NOTE_COMMON + " The legacy windows (Mainnet/Testnet below 500000 / 900000) are explicit hypotheses.",
+        "technique": "Lean 4 theorems on batch and epoch transitions + differential execution + registration oracle",
+    },
+    "C19": {
+        "level": "C19_mainnet (no faucet on mainnet but the grandfathered hash), C19_marker_inserted, C19_duplicate_rejected / C19_duplicate_error (DuplicateTx), C19_same_batch, C19_marker_unspendable (a marker survives every accepted batch: spending it needs a covenant hashing to the zero address), C19_grandfathered_no_marker (known finding F11). Faucet accept/reject and markers of generated histories (replays in the same batch, later blocks, after restore) are compared with the model and checked by a Python oracle.",
+        "design_ref": "DESIGN.md §4 C19",
+        "note": NOTE_COMMON + " F11 (grandfathered transaction replayable) is pinned by a passing test and recorded as a known finding.",
+        "technique": "Lean 4 invariant theorems + differential execution + marker oracle",
+    },
     "C20": {
         "level": "coin-map level: the count invariant (entry = number of coins per covenant hash, no zero entries, unique keys) is preserved by insert_coin on a fresh key or with unchanged covenant hash, by remove_coin (which then never underflows), is determined by the coin content, and is established by the TIP-906 activation fold (C20_*). Every count entry of every state of apply/seal/chain histories (including Testnet histories crossing height 500) is compared with the model and recounted from the real coin tree by a Python oracle.",
         "design_ref": "DESIGN.md §4 C20",
@@ -47,17 +77,12 @@ NOTES = "See DESIGN.md. known_findings.json lists genuine defects that were repa
 
 NOT_YET = {
     "C01": "in progress: model and correspondence exist; theorem and oracle not yet registered",
-    "C02": "in progress: model and correspondence exist; theorem and oracle not yet registered",
     "C03": "in progress",
-    "C04": "in progress",
-    "C05": "in progress",
     "C06": "in progress",
     "C07": "in progress",
     "C08": "in progress",
     "C09": "in progress",
-    "C13": "in progress",
     "C15": "in progress",
     "C16": "in progress",
     "C18": "in progress",
-    "C19": "in progress",
 }
